@@ -782,6 +782,13 @@ func (n *BitcoinNode) handleBlock(ctx context.Context, header *wire.MessageHeade
 
 	blockHandlerThread.Start(ctx)
 
+	// End the transaction stream and wait for the block handler on every way out, including a panic
+	// while parsing a transaction, so the handler never stays parked on the channel.
+	defer func() {
+		close(txChannel)
+		wait.Wait()
+	}()
+
 	for i := uint64(0); i < txCount; i++ {
 		select {
 		case <-n.interrupt:
@@ -791,8 +798,6 @@ func (n *BitcoinNode) handleBlock(ctx context.Context, header *wire.MessageHeade
 				logger.MillisecondsFromNano("elapsed_ms", time.Since(start).Nanoseconds()),
 			}, "Aborting handle block")
 
-			close(txChannel)
-			wait.Wait()
 			return nil
 
 		default:
@@ -800,8 +805,6 @@ func (n *BitcoinNode) handleBlock(ctx context.Context, header *wire.MessageHeade
 
 		tx := &wire.MsgTx{}
 		if err := tx.Deserialize(rb); err != nil {
-			close(txChannel)
-			wait.Wait()
 			logger.Verbose(ctx, "Aborting block download (read tx) : %s", err)
 			return errors.Wrapf(errors.Wrap(err, blockHash.String()), "read tx %d", i)
 		}
@@ -809,7 +812,5 @@ func (n *BitcoinNode) handleBlock(ctx context.Context, header *wire.MessageHeade
 		txChannel <- tx
 	}
 
-	close(txChannel)
-	wait.Wait()
 	return nil
 }
